@@ -24,3 +24,44 @@ contract(
     raises={},
     properties=['C04'],
 )
+
+V = 'hl7apy.validation:Validator.validate.<locals>.'
+
+contract(
+    V + '_check_datatype',
+    sig={'el': 'Field', 'ref': 'RefStruct', 'errs': 'list[any]'},
+    returns='none',
+    requires=['ref._len == 6', 'el._parent is not None'],
+    ensures=[
+        ('mismatch_reported', 'implies(el._datatype != ref.datatype, len(errs) == old(len(errs)) + 1 and '
+                              'is_exc(errs[old(len(errs))], "ValidationError", '
+                              'fmt("Datatype {} is not correct for {}.{} (it must be {})", el._datatype, el._parent.name, el.name, ref.children)))'),
+        ('match_silent', 'implies(el._datatype == ref.datatype, len(errs) == old(len(errs)))'),
+        ('prefix', 'all(errs[i] == old(errs[i]) for i in range(old(len(errs))))'),
+    ],
+    raises={}, raises_only=[], modifies=['errs[]'],
+    properties=['C04'],
+)
+
+contract(
+    V + '_check_length',
+    sig={'el': 'Field', 'ref': 'RefStruct', 'warns': 'list[any]'},
+    returns='none',
+    requires=['ref._len == 6', 'el._parent is not None'],
+    ensures=[
+        ('too_long_warned', 'implies(-1 < ref.maxlen and ref.maxlen < strlen(er7_of(el, None, False)), len(warns) == old(len(warns)) + 1)'),
+        ('otherwise_silent', 'implies(not (-1 < ref.maxlen and ref.maxlen < strlen(er7_of(el, None, False))), len(warns) == old(len(warns)))'),
+        ('prefix', 'all(warns[i] == old(warns[i]) for i in range(old(len(warns))))'),
+    ],
+    raises={}, raises_only=[], modifies=['warns[]'],
+    properties=['C04'],
+)
+
+contract(
+    V + '_get_child_reference_info',
+    sig={'ref': 'ChildEntry'},
+    returns='tuple[str,tuple[int,int]]',
+    ensures=[('name', 'result[0] == ref.name'), ('cardinality', 'result[1][0] == ref.card[0] and result[1][1] == ref.card[1]')],
+    raises={}, raises_only=[], modifies=[], allocates=False,
+    properties=['C04'],
+)
